@@ -5,6 +5,7 @@ CONSTANTS Powers <- PowersSmall
           TableSets = {}
           Pairs = FALSE
           AbsenceAccepted = TRUE
+          RepeatCounts = FALSE
           EmitOn = FALSE
 VIEW View
 INVARIANT PropC30
